@@ -746,6 +746,13 @@ pub fn gen_window_case(r: &mut Rng, enum_idx: Option<u64>) -> LedgerCase {
         .enumerate()
         .map(|(i, (_, _, mut t))| {
             t.read_index = i as u32;
+            // trade date 0-3 days before settlement, independently per row: the window rule is
+            // about SETTLEMENT dates, and rows near a boundary must differ in their lag to show a
+            // scan that reads the trade date instead
+            if enum_idx.is_none() || r.chance(50) {
+                let lag = r.below(4) as i32;
+                t.trade_date = date_from_jd(jd(t.settlement_date) - lag);
+            }
             t
         })
         .collect();
